@@ -7,6 +7,7 @@ package main
 
 import (
 	"fmt"
+	"reflect"
 	"strings"
 
 	"github.com/openconfig/goyang/pkg/yang"
@@ -25,6 +26,7 @@ func oracle(c rescorr.Case, ms *yang.Modules, errs []error, out *rescorr.GoOut) 
 	seenE := map[*yang.Entry]string{}
 	seenLA := map[*yang.ListAttr]string{}
 	seenRPC := map[*yang.RPCEntry]string{}
+	seenDir := map[uintptr]string{}
 	add := func(s string) {
 		if len(out.Findings) < 10 {
 			out.Findings = append(out.Findings, s)
@@ -52,6 +54,15 @@ func oracle(c rescorr.Case, ms *yang.Modules, errs []error, out *rescorr.GoOut) 
 		}
 		if len(e.Augments) > 0 {
 			add("unapplied augment left at " + path)
+		}
+		if e.Dir != nil {
+			// the child map itself must not be shared either (an empty map shared between two copies
+			// looks fine until one of them gets a child)
+			mp := reflect.ValueOf(e.Dir).Pointer()
+			if p, ok := seenDir[mp]; ok {
+				add(fmt.Sprintf("child map shared between %s and %s", p, path))
+			}
+			seenDir[mp] = path
 		}
 		if e.ListAttr != nil {
 			if p, ok := seenLA[e.ListAttr]; ok {
@@ -169,7 +180,13 @@ func main() {
 		g := lib.PositionOnly(lib.Project(o.Go.Dump, keys, true))
 		m := lib.PositionOnly(lib.Project(o.Model, keys, true))
 		if d := rescorr.Diff(g, m); d != "" {
-			res.AddDisagreement(lib.Disagreement{Kind: "correspondence", Input: o.Case, Go: g, Model: m, SpecVerdict: "",
+			// spec verdict on the Go output: the structural oracle above is the executable reading of
+			// C04 (proper tree, consistent kinds, no recorded error, no pending augment) on the Go trees
+			verdict := "holds"
+			if len(o.Go.Findings) > 0 {
+				verdict = "violates"
+			}
+			res.AddDisagreement(lib.Disagreement{Kind: "correspondence", Input: o.Case, Go: g, Model: m, SpecVerdict: verdict,
 				What: "resolver differs from the model: " + d, Replay: o.Case})
 		}
 		if rescorr.HasErrors(o.Go.Dump) {
